@@ -572,6 +572,61 @@ def d3d_leaf_is_registered(chk: Check) -> None:
                  "invisible to conflict detection")
 
 
+def d6_conflicts_before_targets(chk: Check) -> None:
+    """The merge-point query of merge_with runs in the optional-match mode
+    with the right-hand document as default value: for a merge point that
+    does not exist yet it *grafts the right document into the left one*.
+    If that happens before the anchor conflicts are looked at, the scan of
+    the left document finds the right-hand anchors too, every pair looks
+    symmetric, and each policy degenerates to `right` (`stop` accepts).  On
+    every path the conflict resolution precedes the target query."""
+    from sa.flow import Flow
+    prog = chk.prog
+    chk.rule("C10-D6", "merge_with resolves anchor conflicts before it "
+             "queries (and possibly creates) the merge targets", floor=1)
+    fi = prog.func("Merger.merge_with")
+    bad: List[ast.AST] = []
+    seen = {"q": 0}
+
+    def transfer(stmt: ast.stmt, st, flow):
+        for c in ast.walk(stmt):
+            if isinstance(c, ast.Call):
+                f = src(c.func)
+                if f.endswith("._resolve_anchor_conflicts"):
+                    st = True
+                elif f.endswith("._get_merge_target_nodes") or \
+                        f.endswith(".get_nodes"):
+                    seen["q"] += 1
+                    if not st:
+                        bad.append(c)
+        return [st]
+
+    def branch(test: ast.AST, st, flow):
+        return [st], [st]
+
+    def bind(target: ast.AST, it: ast.AST, st, flow):
+        for c in ast.walk(it):
+            if isinstance(c, ast.Call) and (
+                    src(c.func).endswith("._get_merge_target_nodes") or
+                    src(c.func).endswith(".get_nodes")):
+                seen["q"] += 1
+                if not st:
+                    bad.append(c)
+        return [st]
+    Flow(transfer, branch, bind=bind).run(fi.node.body, [False])
+    if not seen["q"]:
+        raise AnalysisError("merge_with: target query not found")
+    if bad:
+        chk.fail("C10-D6", fi, bad[0], src(bad[0])[:60],
+                 "the merge targets are queried (a missing merge point is "
+                 "created from the right document) before the anchor "
+                 "conflicts are resolved: the left document then already "
+                 "holds the right-hand anchors and no conflict is seen")
+    else:
+        chk.ok("C10-D6", fi, fi.node, "conflicts, then targets",
+               "every target query follows _resolve_anchor_conflicts()")
+
+
 def run(chk: Check) -> None:
     d1_policy(chk)
     d2_unique(chk)
@@ -579,5 +634,6 @@ def run(chk: Check) -> None:
     d3b_every_member(chk)
     d3c_recursion_forwards(chk)
     d3d_leaf_is_registered(chk)
+    d6_conflicts_before_targets(chk)
     d4_fresh_tables(chk)
     d5_no_live_mutation(chk)
